@@ -397,3 +397,23 @@ def run(ck, prog):
 EXPLANATION += (" qr_mut: the Householder norm is negated under a test of the diagonal entry get(k, k) against zero (the reflector's "
                 "leading entry 1 + a_kk/nrm must not cancel).")
 TECHNIQUE += "; sign-source rule for the Householder norm"
+
+
+# ------------------------------------------------------------------ generic: no magnitude is compared with a signed raw element
+_run_pre_magnitude = run
+
+
+def run(ck, prog):
+    _run_pre_magnitude(ck, prog)
+    from sa import magnitude
+    magnitude.run_rule(ck, prog, set(DIMENSION_FILES))
+
+
+# ------------------------------------------------------------------ generic: backward strided scans (`j -= step`) continue exactly while j >= step
+_run_pre_subguard = run
+
+
+def run(ck, prog):
+    _run_pre_subguard(ck, prog)
+    from sa import subguard
+    subguard.run_rule(ck, prog, set(DIMENSION_FILES))
